@@ -979,7 +979,38 @@ def judge_arith(c):
     return None
 
 
+# what the Gallina models mirror by hand (coq/Model/C06_*.v), what gen() dumps into coq/Gen, what only the oracle runs
+MODELLED = [
+    # Model/C06_AppIterRange.v
+    "webob.response:AppIterRange.__init__", "webob.response:AppIterRange._skip_start", "webob.response:AppIterRange.next",
+    "webob.static:FileIter.app_iter_range",
+    # Model/C06_ByteRange.v
+    "webob.byterange:_rx_range", "webob.byterange:Range.parse", "webob.byterange:Range.range_for_length",
+    "webob.byterange:Range.content_range", "webob.byterange:Range.__str__", "webob.byterange:ContentRange.__init__",
+    "webob.byterange:ContentRange.__str__", "webob.byterange:_is_content_range_valid", "webob.descriptors:parse_range",
+    # Model/C06_CondResp.v
+    "webob.response:Response.conditional_response_app", "webob.response:Response._safe_methods",
+    "webob.response:Response.app_iter_range", "webob.response:Response.etag_strong", "webob.response:filter_headers",
+    "webob.response:EmptyResponse", "webob.etag:IfRange.__contains__", "webob.etag:IfRangeDate.__contains__",
+    "webob.etag:_AnyETag.__contains__", "webob.etag:_NoETag.__bool__", "webob.etag:ETagMatcher.__contains__",
+]
+REGENERATED = ["webob.byterange:_is_content_range_valid", "webob.byterange:Range.range_for_length"]
+ORACLE_ONLY = [
+    # fact extraction feeding the decision model, and the glue around it
+    "webob.etag:etag_property", "webob.etag:ETagMatcher.parse", "webob.etag:IfRange.parse", "webob.descriptors:_rx_etag",
+    "webob.descriptors:parse_etag_response", "webob.descriptors:parse_int", "webob.descriptors:parse_content_range",
+    "webob.byterange:ContentRange.parse", "webob.byterange:_rx_content_range", "webob.datetime_utils:parse_date",
+    "webob.datetime_utils:serialize_date", "webob.descriptors:header_getter", "webob.descriptors:converter",
+    "webob.response:Response._abs_headerlist", "webob.response:Response.__call__", "webob.response:iter_close",
+    "webob.request:BaseRequest.call_application", "webob.request:BaseRequest.send", "webob.static:FileApp",
+    "webob.static:FileIter.__init__", "webob.static:BLOCK_SIZE",
+]
+
+
 def run(ctx):
+    ctx.modelled(MODELLED)
+    ctx.extra["regenerated_from_source"] = REGENERATED
+    ctx.extra["oracle_only"] = ORACLE_ONLY
     gen(ctx)                      # coq/Gen/C06_byterange.v from the source tree under test
     ctx.build(["Props/C06.vo"])
     quick = not ctx.thorough
